@@ -29,6 +29,9 @@ type Engine struct {
 	Specs    *SpecSet
 	Funcs    map[string]*ssa.Function // short name → function (repo and deps)
 	srcCache map[string][]byte
+	// LockMode (C20): lock state is tracked through assumed contracts of sync.RWMutex (contracts/deps_locks.spec),
+	// `guard` directives generate an obligation at every access to a guarded field
+	LockMode bool
 	// immutable globals: never stored to outside their package's init
 	globalStores map[*ssa.Global]int
 	sentinelErrs map[*ssa.Global]bool
@@ -44,8 +47,11 @@ type Engine struct {
 
 // Load loads the given package patterns of /repo (with the verif tag) and
 // builds SSA for them and all dependencies.
+// LockModeDefault is copied into Engine.LockMode by Load (set by the plan that checks lock discipline).
+var LockModeDefault bool
+
 func Load(repoDir, verifDir string, patterns ...string) (*Engine, error) {
-	e := &Engine{RepoDir: repoDir, VerifDir: verifDir, Funcs: map[string]*ssa.Function{}, srcCache: map[string][]byte{},
+	e := &Engine{LockMode: LockModeDefault, RepoDir: repoDir, VerifDir: verifDir, Funcs: map[string]*ssa.Function{}, srcCache: map[string][]byte{},
 		Nondet: map[string]bool{}, AllPkgs: map[string]*packages.Package{}, globalStores: map[*ssa.Global]int{}, sentinelErrs: map[*ssa.Global]bool{}, globalInit: map[*ssa.Global]ssa.Value{}}
 	env := append(os.Environ(), "GOFLAGS=-mod=mod", "GOPROXY=off", "GOSUMDB=off", "GOTOOLCHAIN=local")
 	cfg := &packages.Config{Mode: packages.LoadAllSyntax, Dir: repoDir, BuildFlags: []string{"-tags=verif"}, Env: env}
@@ -219,6 +225,17 @@ func (e *Engine) loadSpecs() error {
 			c.Trusted = true
 		}
 	}
+	if e.LockMode {
+		locks := filepath.Join(e.VerifDir, "contracts", "deps_locks.spec")
+		if b, err := os.ReadFile(locks); err == nil {
+			if err := e.Specs.ParseSpecText("contracts/deps_locks.spec", "", strings.Split(string(b), "\n")); err != nil {
+				return err
+			}
+			for _, c := range e.Specs.Contracts {
+				c.Trusted = true
+			}
+		}
+	}
 	// 2. contracts_verif.go files of repo packages (comment-only, build tag verif)
 	var paths []string
 	for p := range e.AllPkgs {
@@ -249,6 +266,31 @@ func (e *Engine) loadSpecs() error {
 			rel, _ := filepath.Rel(e.RepoDir, fname)
 			if err := e.Specs.ParseSpecText(rel, p.Types.Name(), lines); err != nil {
 				return err
+			}
+		}
+	}
+	if !e.LockMode {
+		// clauses about lock state (label prefix "locks-") only mean something when lock tracking is on
+		drop := func(cs []Clause) []Clause {
+			var out []Clause
+			for _, c := range cs {
+				if !strings.HasPrefix(c.Label, "locks-") {
+					out = append(out, c)
+				}
+			}
+			return out
+		}
+		for _, ct := range e.Specs.Contracts {
+			ct.Requires, ct.Ensures, ct.LoopInv = drop(ct.Requires), drop(ct.Ensures), drop(ct.LoopInv)
+			var as []AnchorAssert
+			for _, a := range ct.Asserts {
+				if !strings.HasPrefix(a.Label, "locks-") {
+					as = append(as, a)
+				}
+			}
+			ct.Asserts = as
+			for _, ls := range ct.Loops {
+				ls.Invariants = drop(ls.Invariants)
 			}
 		}
 	}
